@@ -7,7 +7,7 @@
 From Coq Require Import List String Arith Bool.
 Import ListNotations.
 From DV Require Import Model.Conc Proofs.ConcProofs Gen.Access Gen.ImportsSrc
-  Model.Resolvers Model.Decision Model.DecisionInterp Gen.DecisionSrc Proofs.DecisionProofs.
+  Model.Resolvers Model.Decision Model.DecisionInterp Gen.DecisionSrc Proofs.DecisionProofs Gen.PuritySrc.
 Local Open Scope string_scope.
 Local Open Scope list_scope.
 
@@ -38,6 +38,13 @@ Theorem C16_name_resolvers_are_pure_functions_of_their_map :
   (forall m p, out_string (pkgres_syms m p) (run (fun q => str_case q (pkgres_preds m p) false) simple_resolvepackage_src) =
                match simple_resolve m p with Some n => n | None => "<error>" end).
 Proof. split; [vm_compute; reflexivity|]. split; [exact guess_source_is_model|exact simple_source_is_model]. Qed.
+
+(* ... and the ResolvePackage methods of guess, simple and gobuild (which works on the caller's
+   build context or on the process-wide build.Default) assign only to variables declared inside the
+   method: nothing is written through the receiver, a pointer, an index or a package-level name. *)
+Theorem C16_shareable_name_resolvers_write_only_locals :
+  forallb (fun e => snd e) name_resolvers_write_only_locals && Nat.eqb (List.length name_resolvers_write_only_locals) 3 = true.
+Proof. vm_compute. reflexivity. Qed.
 
 (* No package-level variable of the module is assigned by any function: decorators and
    restorers of different goroutines share no other mutable state. *)
@@ -80,6 +87,7 @@ Proof. vm_compute. repeat split. Qed.
 Print Assumptions C16_shared_resolver_accesses_hold_the_mutex.
 Print Assumptions C16_shared_state_is_the_per_file_cache.
 Print Assumptions C16_name_resolvers_are_pure_functions_of_their_map.
+Print Assumptions C16_shareable_name_resolvers_write_only_locals.
 Print Assumptions C16_no_package_level_state_is_written.
 Print Assumptions C16_locked_accesses_are_ordered.
 Print Assumptions C16_cache_is_transparent.
